@@ -1,6 +1,7 @@
 package hdr
 
 import (
+	"bytes"
 	"context"
 	"fmt"
 	"math/big"
@@ -23,6 +24,7 @@ import (
 // Config selects the closed system a World runs.
 type Config struct {
 	MaxBranchDepth  int      `json:"max_branch_depth"`
+	Legacy          bool     `json:"legacy_files,omitempty"`     // with Base: storage holds the chain as version-0 header files only (Load migrates them)
 	Base            int      `json:"base,omitempty"`             // 0: start at genesis; n: start on a saved straight chain of height n
 	InitLoad        bool     `json:"init_load,omitempty"`        // start by Load from empty storage instead of InitializeWithGenesis
 	Splits          string   `json:"splits,omitempty"`           // "": none reachable; "synth": synthetic split table (see splits.go)
@@ -43,8 +45,19 @@ type Op struct {
 func (o Op) String() string {
 	switch o.K {
 	case "sub", "subw", "mark", "unmark":
+		if o.K == "sub" && o.D > 0 {
+			return fmt.Sprintf("sub(%s)!storage-fault-at-call-%d", o.L, o.D)
+		}
 		return o.K + "(" + o.L + ")"
+	case "reload":
+		if o.L != "" {
+			return o.K + "(" + o.L + ")"
+		}
+		return o.K
 	case "fullrace":
+		if o.D != 0 {
+			return fmt.Sprintf("%s(%d)", o.K, o.D)
+		}
 		return o.K
 	case "cleand", "reloadd", "grow", "growside", "growlag":
 		return fmt.Sprintf("%s(%d)", o.K, o.D)
@@ -104,6 +117,8 @@ type World struct {
 	Submitted    map[string]bool
 	Marked       []bitcoin.Hash32 // model of the invalid list (order of marking)
 	restarts     int              // number of reloads so far
+	hasSaved     bool             // a Save has completed
+	savedTree    string           // treeKey at the last completed Save
 	Forgot       bool             // memory was reduced by a small-depth prune or a reload
 	MinDepth     int              // smallest prune depth applied so far (0: never pruned)
 	PruneFloor   int              // highest "best height - prune depth" over all prunes so far: what lies below may be gone from memory
@@ -175,6 +190,9 @@ func NewWorld(cfg Config) (*World, error) {
 	if cfg.Base > 0 {
 		b := GetBase(cfg.Base)
 		w.Store = b.Store.Clone()
+		if cfg.Legacy {
+			w.Store = legacyStore(w.Ctx, cfg.Base)
+		}
 		w.Tree = ref.NewTree()
 		w.Tree.Shared = b.Nodes
 		w.Repo = w.NewRepo()
@@ -256,7 +274,14 @@ func (w *World) Apply(op Op) *Step {
 		if op.K == "subw" { // proof-of-work checking on for this one submission
 			w.Repo.EnableDifficulty()
 		}
+		if op.K == "sub" && op.D > 0 {
+			// the D-th storage write / removal issued during this submission fails (a storage fault
+			// during the automatic clean); whatever the repository does about it, its answer and its
+			// announcements have to stay consistent with what it reports
+			w.Store.FailAt(op.D)
+		}
 		err, p := Safe(func() error { return w.Repo.ProcessHeader(w.Ctx, &hc) })
+		w.Store.FailAt(0)
 		if op.K == "subw" {
 			w.Repo.DisableDifficulty()
 		}
@@ -432,12 +457,60 @@ func (w *World) Apply(op Op) *Step {
 		if !ok {
 			break
 		}
+		if op.D == 2 {
+			// variant 2: one more extension, submitted with a context that is already cancelled (a
+			// caller that is shutting down) while the subscriber's buffer is full. Whatever the
+			// verdict, the stream and the reported chain must keep agreeing.
+			ctx, cancel := context.WithCancel(w.Ctx)
+			cancel()
+			u := Get("B10000/a")
+			hc := u.Header.Copy()
+			var errc error
+			var pc string
+			donec := make(chan struct{})
+			go func() {
+				defer close(donec)
+				errc, pc = Safe(func() error { return w.Repo.ProcessHeader(ctx, &hc) })
+			}()
+			w.Submitted["B10000/a"] = true
+			waitForSenders(1, 100*time.Millisecond)
+			lagPre = make([][]bitcoin.Hash32, len(w.Subs))
+			for running := true; running; {
+				select {
+				case <-donec:
+					running = false
+				default:
+					for i, s := range w.Subs {
+						select {
+						case h := <-s.Ch:
+							lagPre[i] = append(lagPre[i], *h.BlockHash())
+							s.replay(h)
+						default:
+						}
+					}
+				}
+			}
+			st.Panic = pc
+			if errc != nil {
+				st.Err = errc.Error()
+			} else if pc == "" {
+				accept("B10000/a")
+			}
+			break
+		}
+		// variant 1: submitter 2 extends the chain that is still reported (B10000/Q, quadruple work)
+		// while submitter 1's reorganisation is waiting: the old chain is the heavier one again and
+		// must be the one reported when both have returned
+		second := "B9998/a/H/a"
+		if op.D == 1 {
+			second = "B10000/Q"
+		}
 		var err2, err3 error
 		var p2, p3 string
 		done2, done3 := make(chan struct{}), make(chan struct{})
 		go func() { defer close(done2); err2, p2 = submit("B9998/a/H") }()
 		waitForSenders(1, 2*time.Second) // submitter 1 is waiting for the subscriber
-		go func() { defer close(done3); err3, p3 = submit("B9998/a/H/a") }()
+		go func() { defer close(done3); err3, p3 = submit(second) }()
 		// submitter 2 is either waiting for the repository (behind submitter 1) or for the subscriber
 		waitForSenders(2, 100*time.Millisecond)
 		lagPre = make([][]bitcoin.Hash32, len(w.Subs))
@@ -467,8 +540,11 @@ func (w *World) Apply(op Op) *Step {
 			accept("B9998/a/H")
 		}
 		// submitter 2 may have got in first (then its header has no known parent yet and is refused)
-		if err3 == nil && p3 == "" && err2 == nil {
-			accept("B9998/a/H/a")
+		if err3 == nil && p3 == "" && (err2 == nil || op.D == 1) {
+			accept(second)
+		}
+		if op.D == 1 && (err2 != nil || err3 != nil) {
+			st.Err = fmt.Sprint(err2, err3)
 		}
 	case "clean":
 		w.notePrune(10000)
@@ -502,7 +578,15 @@ func (w *World) Apply(op Op) *Step {
 		}
 	case "reload", "reloadd":
 		w.Store.StartLog()
-		err, p := Safe(func() error { return w.Repo.Save(w.Ctx) })
+		var err error
+		var p string
+		if op.L == "nosave" && w.InSync() {
+			// a restart without a Save (the process was killed): offered only while the accepted
+			// headers are exactly those of the last completed Save, so the expected state is the
+			// same as for a restart after Save - including every hash marked since, known or not
+		} else {
+			err, p = Safe(func() error { return w.Repo.Save(w.Ctx) })
+		}
 		st.Mutated = w.Store.StopLog()
 		if err == nil && p == "" {
 			w.noteSaved()
@@ -682,7 +766,21 @@ func (w *World) notePrune(d int) {
 	w.Pruned = true
 }
 
+// treeKey identifies the set of accepted headers.
+func (w *World) treeKey() string {
+	var b strings.Builder
+	for _, n := range w.Tree.Sorted() {
+		b.WriteString(n.Label)
+		b.WriteByte(' ')
+	}
+	return b.String()
+}
+
+// InSync reports whether the accepted headers are exactly those of the last completed Save.
+func (w *World) InSync() bool { return w.hasSaved && w.savedTree == w.treeKey() }
+
 func (w *World) noteSaved() {
+	w.hasSaved, w.savedTree = true, w.treeKey()
 	if n := w.Tree.Get(RH(w.tipHash())); n != nil {
 		w.SavedWork = n.Work
 	}
@@ -754,4 +852,28 @@ func (w *World) Key() string {
 	return dump + "|store=" + w.Store.Digest() + "|acc=" + w.AcceptedLabels() + "|marked=" +
 		strings.Join(marked, ",") + "|subs=" + strings.Join(subs, ";") +
 		fmt.Sprintf("|forgot=%t|floor=%d", w.Forgot, w.PruneFloor)
+}
+
+// legacyStore holds genesis and the base chain up to height n in the layout written before branches
+// existed: files of 1000 headers, a version byte 0 followed by the bare 80-byte headers.
+func legacyStore(ctx context.Context, n int) *vstore.Store {
+	store := vstore.New()
+	for file := 0; file*1000 <= n; file++ {
+		buf := &bytes.Buffer{}
+		buf.WriteByte(0)
+		for h := file * 1000; h < (file+1)*1000 && h <= n; h++ {
+			u := Genesis()
+			if h > 0 {
+				u = Get(BaseLabel(h))
+			}
+			hc := u.Header.Copy()
+			if err := hc.Serialize(buf); err != nil {
+				panic(err)
+			}
+		}
+		if err := store.Write(ctx, fmt.Sprintf("headers/%08x", file), buf.Bytes(), nil); err != nil {
+			panic(err)
+		}
+	}
+	return store
 }
